@@ -637,6 +637,8 @@ def gen_roundtrip(cls, rng, tier):
                 steps += ["gser %d %s" % (gi, fmt), "grt %d %s" % (gi, fmt)]
         cases.append(Case("rt%s%d" % (cls, idx), cls, steps, dict(kind="small-graph-roundtrip", edges=len(g.edges))))
         idx += 1
+    # a key type whose Display is not injective and whose Hash is coarse (self-checking probe in the harness)
+    cases.append(Case("rtK%s" % cls, cls, ["klossy"], dict(kind="keys-with-non-injective-display")))
     # degenerate sizes: the empty graph, one node (orphan, self-loops, parallel self-loops), two nodes
     for n, m in ((0, 0), (1, 3), (2, 3)):
         for g in sc.all_graphs(cls, n, m):
@@ -761,6 +763,8 @@ def oracle_roundtrip(case, obs):
         st = case.steps[si]
         if text.startswith("panic"):
             return "step %d `%s` panicked" % (si, st)
+        if st == "klossy" and text != "ok":
+            return "keys whose Display is not injective (Lk(ns, n) printed as #n; coarse Hash): %s" % text[:300]
         if st == "snap":
             before = nc.parse_snap(text)
         if st.startswith("grt") and mutated:
